@@ -1,5 +1,5 @@
 (* C12 -- a program that assembles without compression also assembles with it.  Statements only (PARTIAL: see below). *)
-From Coq Require Import ZArith List String.
+From Coq Require Import ZArith List String Lia.
 From BB Require Import Base.PyBase Gen.Encoders Gen.Criteria Spec.RV32 Spec.RVC Spec.Operands Spec.Legal
   Model.Items Model.Encode Model.Passes Proofs.Layout Proofs.Rules Proofs.RulesMain Proofs.Stable Proofs.Examples Proofs.Monotone.
 Import ListNotations.
@@ -39,6 +39,17 @@ Theorem C12_no_align_labels_never_apart :
       Z.abs (b2 - b1) <= Z.abs (a2 - a1) /\ (a1 <= a2 -> b1 <= b2 \/ a1 = a2).
 Proof. exact Monotone.compression_labels_never_apart. Qed.
 Print Assumptions C12_no_align_labels_never_apart.
+Example C12_no_align_example :       (* add / A: / add / add / B: / dw B : hypotheses hold; A..B is 8 bytes without -c, 4 with *)
+  let its := [(exL 1, exR3 "add" "x8" "x8" "x9"); (exL 2, ILabel "A"); (exL 3, exR3 "add" "x9" "x9" "x8");
+              (exL 4, exR3 "add" "x8" "x8" "x9"); (exL 5, ILabel "B"); (exL 6, IShort "dw" (FExpr (EArith (AName "B"))))]%string in
+  nonneg its /\ total its < 2 ^ 31 /\ Monotone.no_align its = true /\
+  (exists rU, assemble_items its [] [] false = Done rU /\ r_labels rU = [("A", 4); ("B", 12)]%string) /\
+  (exists rC, assemble_items its [] [] true = Done rC /\ r_labels rC = [("A", 2); ("B", 6)]%string).
+Proof.
+  cbv zeta. split. { repeat constructor; try (unfold isz; simpl; lia); intros ? H; discriminate. }
+  split. { vm_compute. reflexivity. } split. { reflexivity. }
+  split; eexists; split; vm_compute; reflexivity.
+Qed.
 
 (* What IS proved.  The compression pass cannot introduce an encoding failure on a settled immediate: whenever a rule is selected the
    generated c.* encoder ACCEPTS the operands the construction row builds (for every register spelling and every
